@@ -14,6 +14,7 @@ def run(ctx: common.Ctx):
     doc_checks.run_c06(ctx)
     doc_checks.run_c06_payee_grid(ctx)
     doc_checks.run_c06_whole_field(ctx)
+    doc_checks.run_c06_stale_views(ctx)
     tree_check.correspondence(ctx, 'C06')
 
 
@@ -21,6 +22,7 @@ def search(ctx: common.Ctx):
     doc_checks.run_c06(ctx)
     doc_checks.run_c06_payee_grid(ctx)
     doc_checks.run_c06_whole_field(ctx)
+    doc_checks.run_c06_stale_views(ctx)
 
 
 def replay(ctx, path):
